@@ -39,7 +39,7 @@ tr(const char * fmt, ...)
 static uint64_t st_waits, st_peeks, st_consumes, st_cancels, st_eof, st_err,
     st_bytes_seen, st_grow, st_writes, st_reserves, st_zero, st_bytes_sent,
     st_fail_cb, st_after_fail, st_big_waits, st_cancel_partial,
-    st_consume_pending;
+    st_consume_pending, st_huge_waits, st_duplex, st_duplex_wfree, st_duplex_rfree;
 
 static void
 viol(const char * key, const char * fmt, ...)
@@ -214,6 +214,38 @@ scenario_reader(uint64_t key)
 			if (check_peek(NR, f, consumed, 0, "after consume") < 0)
 				break;
 		}
+		/*
+		 * Sometimes first ask for an impossible amount (up to SIZE_MAX, and
+		 * amounts whose sum with the read position wraps): the wait must be
+		 * refused (-1, the buffer cannot be allocated), no callback may
+		 * follow, and the reader must be unchanged.
+		 */
+		if (vh_chance(&R, 1, 12)) {
+			static const size_t huge[] = { SIZE_MAX, SIZE_MAX - 1, SIZE_MAX - 5, SIZE_MAX - 4095,
+			    SIZE_MAX - 4096, SIZE_MAX / 2 + 1, SIZE_MAX / 2, (size_t)1 << 62, (size_t)1 << 48 };
+			size_t hk = huge[vh_below(&R, sizeof(huge) / sizeof(huge[0]))];
+			struct wreq hq = { 0, 0, 0 };
+			int dummy = 0;
+
+			if (vh_chance(&R, 1, 3))
+				hk = SIZE_MAX - (size_t)vh_below(&R, 20000);
+			st_huge_waits++;
+			if (netbuf_read_wait(NR, hk, wait_cb, &hq) == 0) {
+				run_until(&dummy, 2000);
+				viol("reader:impossible-wait-accepted", "netbuf_read_wait(%zu) returned 0%s", hk,
+				    hq.ncb ? " and its callback reported success" : "");
+				if (!hq.ncb)
+					netbuf_read_wait_cancel(NR);
+				over = 1;
+				break;
+			}
+			run_until(&dummy, 1 + vh_below(&R, 500));
+			if (hq.ncb)
+				viol("reader:callback-after-refused-wait", "a refused wait ran its callback");
+			tr(" wait(%zu)=refused", hk);
+			if (check_peek(NR, f, consumed, 0, "after a refused wait") < 0)
+				break;
+		}
 		st_waits++;
 		if (k > 4096)
 			st_big_waits++;
@@ -305,6 +337,136 @@ scenario_reader(uint64_t key)
 		casesig = vh_fnv_u64(casesig, (uint64_t)(q.status + 2) * 7 + (k > 4096));
 	}
 	netbuf_read_free(NR);
+	simk_closefd(fd);
+}
+
+/* ---- reader and writer on one descriptor ---- */
+static int dfail_ncb;
+
+static int
+dfail_cb(void * cookie)
+{
+
+	(void)cookie;
+	dfail_ncb++;
+	return (0);
+}
+
+/*
+ * A buffered reader and a buffered writer share one full-duplex descriptor.
+ * While a wait is outstanding on the reader and a write is in flight on the
+ * writer, one of the two is torn down (netbuf_write_free with data in flight;
+ * netbuf_read_wait_cancel + netbuf_read_free); the other must be unaffected:
+ * the wait still completes with the right bytes / the written bytes still
+ * arrive in order.
+ */
+static void
+scenario_duplex(uint64_t key)
+{
+	int fd = simk_newfd(), dummy, i;
+	struct simk_fd * f;
+	struct netbuf_read * NR;
+	struct netbuf_write * W;
+	struct wreq q = { 0, 0, 0 };
+	uint64_t total = 200 + vh_below(&R, 20000), written = 0;
+	size_t k = 1 + (size_t)vh_below(&R, 9000), wlen;
+	int free_writer = vh_chance(&R, 1, 2);
+	uint8_t * b;
+
+	st_duplex++;
+	if (k > total)
+		k = (size_t)total;
+	simk_set_in_keyed(fd, key, total, SIMK_END_STALL, 0);
+	simk_set_out(fd, key ^ 0x5555, 1, 0);
+	f = simk_get(fd);
+	/* the peer's data arrives later; the send window opens slowly */
+	f->arr_min = 1; f->arr_max = 3000; f->arr_delay_us = 500 + (uint32_t)vh_below(&R, 3000);
+	f->in_avail = 0;
+	f->win_min = 1; f->win_max = 2000; f->win_delay_us = 400 + (uint32_t)vh_below(&R, 3000);
+	f->out_window = (uint32_t)vh_below(&R, 50);
+	f->seg_max = vh_chance(&R, 1, 2) ? 0 : 1 + (uint32_t)vh_below(&R, 1500);
+	f->out_seg_max = vh_chance(&R, 1, 2) ? 0 : 1 + (uint32_t)vh_below(&R, 1500);
+	casesig = vh_fnv_u64(casesig, 900 + (uint64_t)free_writer);
+	tr("duplex: wait(%zu) pending and a write in flight on one descriptor, then the %s is torn down:",
+	    k, free_writer ? "writer" : "reader");
+	dfail_ncb = 0;
+	if ((NR = netbuf_read_init(fd)) == NULL || (W = netbuf_write_init(fd, dfail_cb, NULL)) == NULL) {
+		viol("duplex:init-failed", "netbuf init returned NULL");
+		simk_closefd(fd);
+		return;
+	}
+	if (netbuf_read_wait(NR, k, wait_cb, &q)) {
+		viol("reader:wait-failed", "netbuf_read_wait(%zu) failed", k);
+		goto out;
+	}
+	for (i = 0; i < 1 + (int)vh_below(&R, 3); i++) {
+		wlen = 1 + (size_t)vh_below(&R, 12000);
+		b = malloc(wlen);
+		if (b == NULL)
+			vh_die("oom");
+		{
+			size_t j;
+
+			for (j = 0; j < wlen; j++)
+				b[j] = vh_streambyte(key ^ 0x5555, written + j);
+		}
+		if (netbuf_write_write(W, b, wlen))
+			viol("writer:write-failed", "netbuf_write_write(%zu) failed", wlen);
+		free(b);
+		written += wlen;
+	}
+	/* let both make some progress, but not finish */
+	dummy = 0;
+	run_until(&dummy, vh_below(&R, 1500));
+	if (free_writer) {
+		if (!q.done) {
+			st_duplex_wfree++;
+			netbuf_write_free(W);
+			W = NULL;
+			if (f->out_mismatch)
+				viol("writer:wrong-bytes", "bytes accepted by the socket are not the prefix of the writes");
+			if (!run_until(&q.done, 60000000))
+				viol("reader:no-callback", "duplex: the writer on the same descriptor was freed with a "
+				    "write in flight; the reader's wait(%zu) then never completed although %llu "
+				    "bytes arrived", k, (unsigned long long)f->in_pos);
+			else if (q.status != 0)
+				viol("reader:bad-status", "duplex: wait completed with status %d", q.status);
+			else
+				(void)check_peek(NR, f, 0, k, "duplex: after the writer was freed");
+		}
+	} else {
+		uint64_t sent0;
+
+		if (!q.done)
+			netbuf_read_wait_cancel(NR);
+		netbuf_read_free(NR);
+		NR = NULL;
+		st_duplex_rfree++;
+		sent0 = f->out_total;
+		/* the writer must still deliver everything */
+		for (i = 0; i < 400 && f->out_total < written && !dfail_ncb; i++) {
+			dummy = 0;
+			run_until(&dummy, 50000);
+		}
+		if (f->out_mismatch)
+			viol("writer:wrong-bytes", "duplex: bytes accepted by the socket are not the prefix of the writes");
+		if (dfail_ncb)
+			viol("writer:spurious-failure", "duplex: failure callback although the transport never failed");
+		else if (f->out_total != written)
+			viol("writer:lost-bytes", "duplex: the reader on the same descriptor was freed; the writer then "
+			    "delivered %llu of %llu bytes (%llu before the reader was freed)",
+			    (unsigned long long)f->out_total, (unsigned long long)written, (unsigned long long)sent0);
+	}
+out:
+	if (NR != NULL) {
+		if (!q.done)
+			netbuf_read_wait_cancel(NR);
+		netbuf_read_free(NR);
+	}
+	if (W != NULL)
+		netbuf_write_free(W);
+	dummy = 0;
+	run_until(&dummy, 1000);
 	simk_closefd(fd);
 }
 
@@ -514,7 +676,9 @@ main(int argc, char ** argv)
 		casesig = 0;
 		trace[0] = '\0';
 		printf("CASE %llu\n", (unsigned long long)i);
-		if (vh_chance(&R, 1, 2))
+		if (vh_chance(&R, 1, 8))
+			scenario_duplex(seed ^ (i * 31337));
+		else if (vh_chance(&R, 1, 2))
 			scenario_reader(seed ^ (i * 7919));
 		else
 			scenario_writer(seed ^ (i * 104729));
@@ -535,7 +699,11 @@ main(int argc, char ** argv)
 	    (unsigned long long)st_waits, (unsigned long long)st_big_waits, (unsigned long long)st_peeks,
 	    (unsigned long long)st_consumes, (unsigned long long)st_cancels, (unsigned long long)st_cancel_partial,
 	    (unsigned long long)st_eof, (unsigned long long)st_err, (unsigned long long)st_bytes_seen);
-	printf("STAT consumes_while_wait_pending %llu\n", (unsigned long long)st_consume_pending);
+	printf("STAT consumes_while_wait_pending %llu\nSTAT impossible_waits_refused %llu\n"
+	    "STAT duplex_cases %llu\nSTAT duplex_writer_freed_with_write_in_flight %llu\n"
+	    "STAT duplex_reader_freed %llu\n", (unsigned long long)st_consume_pending,
+	    (unsigned long long)st_huge_waits, (unsigned long long)st_duplex,
+	    (unsigned long long)st_duplex_wfree, (unsigned long long)st_duplex_rfree);
 	printf("STAT writes %llu\nSTAT reserves %llu\nSTAT zero_length_writes %llu\nSTAT writer_bytes_compared %llu\n"
 	    "STAT failure_callbacks %llu\nSTAT writes_after_failure %llu\nSTAT polls %llu\nSTAT recv_calls %llu\nSTAT send_calls %llu\n",
 	    (unsigned long long)st_writes, (unsigned long long)st_reserves, (unsigned long long)st_zero,
